@@ -922,9 +922,15 @@ func runMgrSoak(line string) string {
 		}
 		time.Sleep(200 * time.Microsecond)
 	}
+	// "held" means STUCK: a late election goroutine of an abandoned endpoint object may take m.mu for a moment after the
+	// manager was seen quiet (thorough sweep, seed 41, under load: one sample of TryLock hit such a moment - a false alarm
+	// of this harness), so the lock is given a second to be seen free
 	lock := "held"
-	if endpoint.VerifTryLock(r.m) {
-		lock = "free"
+	for t1 := time.Now(); time.Since(t1) < time.Second; time.Sleep(500 * time.Microsecond) {
+		if endpoint.VerifTryLock(r.m) {
+			lock = "free"
+			break
+		}
 	}
 	return fmt.Sprintf("returned=%s once=%d offered=%d overlap=%d quiesce=%d lock=%s", returned, 1-badOnce, 1-badOffered, atomic.LoadInt32(&r.overlap), quiesce, lock)
 }
